@@ -94,7 +94,7 @@ def snapshots(commands, global_decls=False):
 DEFAULTS = dict(ncmds=(8, 26), p_push=0.12, p_pop=0.10, p_check=0.22, named=0.0, nested_named=0.0, defines=0.0,
                 queries=(), q_prob=0.7, unsat_bias=0.3, all_named=False, max_live=14, max_depth=3, big=0.15, max_push=4,
                 reassert=0.12, value_terms=True, final_check=True, clausal=0.35, bool_args=True, allow_let=True, reenter=0.25, horn=0.3, hard3=0.25,
-                uf_heavy=0.4, dl_dense=0.5, la_dense=0.3, ax_dense=0.5, uf_dense=0.4)
+                uf_heavy=0.4, dl_dense=0.5, la_dense=0.3, ax_dense=0.5, uf_dense=0.4, term_reuse=True)
 
 
 class HistGen:
@@ -124,6 +124,7 @@ class HistGen:
             self.uf_dense = rng.random() < self.o['uf_dense'] and not (self.la_dense or self.dl_dense)
         self.tg = gen.TermGen(rng, prof, self.sig, big_consts=self.o['big'], max_depth=self.o['max_depth'])
         self.tg.allow_let = self.o['allow_let']
+        self.tg.reuse = rng.choice([0.0, 0.1, 0.25]) if self.o['term_reuse'] else 0.0
         pp = gen.PROFILES[prof]
         if pp['uf'] and pp['nums'] and not pp['dl'] and any(f[2] in pp['nums'] for f in self.sig.funs):
             self.tg.uf_heavy = rng.random() < self.o['uf_heavy']
@@ -345,7 +346,9 @@ class HistGen:
         for pn, ps in params:
             self.sig.consts.setdefault(ps, [])
             self.sig.consts[ps] = self.sig.consts[ps] + [pn]
+        tg.no_memory = True      # parameters are not in scope outside the body
         body = tg.term(ret, 2)
+        tg.no_memory = False
         for pn, ps in params:
             self.sig.consts[ps] = [x for x in self.sig.consts[ps] if x != pn]
         text = '(define-fun %s (%s) %s %s)' % (name, ' '.join('(%s %s)' % p for p in params), ret, pr(body, False))
